@@ -30,7 +30,7 @@ const FILE_NAMES: &[&str] = &[
     // names that are not valid UTF-8 (U+F7xx stands for the raw byte 0xxx, see util::path_encode)
     "r\u{f7e9}sum\u{f7e9}.typ", ".h\u{f7ff}.typ", "n\u{f7c3}.typ",
     // decomposed umlaut, glob characters, blanks at the edges, names that collide when case is folded
-    "a.typ,b.typ", "x,y.typ", "lib.typ;z.typ", "a.typ:b.typ", "u\u{308}.typ", "we[i]rd*.typ", "q?.typ", " lead.typ", "trail .typ", "A.typ", "MAIN.typ", "a.TyP", "$HOME.typ", "~.typ", "%41.typ",
+    "a.typ.typ", "a..typ", "typ.typ", "c.typ ", "a.typ.", "a.tYp", "a.typx", "a.ty", "a.typ,b.typ", "x,y.typ", "lib.typ;z.typ", "a.typ:b.typ", "u\u{308}.typ", "we[i]rd*.typ", "q?.typ", " lead.typ", "trail .typ", "A.typ", "MAIN.typ", "a.TyP", "$HOME.typ", "~.typ", "%41.typ",
 ];
 const TYP_NAMES: &[&str] = &["a.typ", "b.typ", "main.typ", "c.typ", "lib.typ", "a.b.typ", "z.typ", "sp ace.typ", "A.typ", "MAIN.typ"];
 const DIR_NAMES: &[&str] = &[
@@ -154,6 +154,13 @@ impl<'a> Docs<'a> {
                 if self.rng.chance(0.3) {
                     if let Fmt::Ok(f) = self.oracle.fmt(&s, self.main_cfg) {
                         s = f;
+                    }
+                } else if self.rng.chance(0.25) {
+                    // a large erroneous input (to be echoed / left alone byte for byte), sometimes
+                    // without final newline
+                    s = gen::erroneous_variant(&s, &mut self.rng);
+                    if self.rng.chance(0.4) {
+                        s = gen::drop_final_newline(&s);
                     }
                 }
                 s.into()
